@@ -37,13 +37,51 @@ def cl(xs):
 
 
 def decl_to_coq(d):
-    if d.get("bad") == "unnamed":
-        return "DBad EUnnamed"
-    if d.get("bad"):
-        return "DBad EOther"
+    """The declaration as written (the Coq model resolves the names itself)."""
+    if d["k"] == "raw":
+        return "RJunk"
     if d["k"] == "sub":
-        return "DSub %s" % cl(d.get("rdirs"))
-    return "DRule %s %s %s" % (coq_str(d["rname"]), cl(d.get("rdeps")), cl(d.get("routs")))
+        return "RSub %s" % cl(d.get("dirs"))
+    if d["k"] == "bundle":
+        return "RBundle %s %s" % (coq_str(d.get("name", "")), cl(d.get("deps")))
+    return "RFileSet %s %s %s" % (coq_str(d.get("name", "")), cl(d.get("files")), cl(d.get("include")))
+
+
+# name resolution, independent of the Coq model and of the Go code
+def rsegs(x):
+    st = []
+    for seg in x.split("/"):
+        if seg in ("", "."):
+            continue
+        if seg == "..":
+            if st:
+                st.pop()
+        else:
+            st.append(seg)
+    return st
+
+
+def make_rel_path(p, f):
+    return "/".join(rsegs(p) + rsegs(f))
+
+
+def make_path(p, f):
+    return "/".join(rsegs(f)) if f.startswith("/") else make_rel_path(p, f)
+
+
+def resolved(p, d):
+    """(kind, name, deps, outs, subdirs) of a declaration of package p."""
+    if d["k"] == "raw":
+        return ("bad", "parse", [], [], [])
+    if d["k"] == "sub":
+        return ("sub", "", [], [], [make_rel_path(p, x) for x in d.get("dirs") or []])
+    name = make_rel_path(p, d.get("name", ""))
+    if name == p or name == "":
+        return ("bad", "unnamed", [], [], [])
+    if d["k"] == "bundle":
+        return ("rule", name, [make_path(p, x) for x in d.get("deps") or []], [], [])
+    files = sorted(set(make_path(p, x) for x in d.get("files") or []))
+    return ("rule", name, files + list(d.get("include") or []), [name + ".fileset"], [])
 
 
 def derived_tree(c):
@@ -126,7 +164,7 @@ def spec(c):
     """What the property demands for this workspace, computed from the
     declarations alone (no model, no implementation): ('err', reasons) or
     ('ok', reachable rule set, edges)."""
-    byd = {f["dir"]: f["decls"] for f in c["files"]}
+    byd = {f["dir"]: [resolved(f["dir"], d) for d in f["decls"]] for f in c["files"]}
     reasons = []
     seen, todo = set(), sorted(set(c["roots"]))
     good = []
@@ -138,20 +176,19 @@ def spec(c):
         ds = byd.get(d)
         if ds is None:
             continue
-        if any(x.get("bad") for x in ds):
-            reasons += [x["bad"] for x in ds if x.get("bad")]
+        if any(x[0] == "bad" for x in ds):
+            reasons += [x[1] for x in ds if x[0] == "bad"]
             continue
         good.append(d)
         for x in ds:
-            if x["k"] == "sub":
-                todo += [y for y in x.get("rdirs") or []]
+            if x[0] == "sub":
+                todo += x[4]
     nodes = {}
     for d in good:
         for x in byd[d]:
-            if x["k"] == "sub":
+            if x[0] != "rule":
                 continue
-            for nm, typ, deps in [(x["rname"], "rule", x.get("rdeps") or [])] + \
-                                 [(o, "out", [x["rname"]]) for o in x.get("routs") or []]:
+            for nm, typ, deps in [(x[1], "rule", x[2])] + [(o, "out", [x[1]]) for o in x[3]]:
                 if nm == "":
                     reasons.append("emptyname")
                 elif nm in nodes:
@@ -250,6 +287,21 @@ def is_trivial(c):
     return not any(d["k"] != "sub" for f in c["files"] for d in f["decls"]) or not c["targets"]
 
 
+def spelling_stats(cases):
+    """How many declared names / references are not written in their resolved form."""
+    n = 0
+    for c in cases:
+        for f in c["files"]:
+            for d in f["decls"]:
+                if d["k"] in ("bundle", "file_set"):
+                    if "/" in d.get("name", "") or d.get("name", "").startswith("."):
+                        n += 1
+                    n += sum(1 for x in (d.get("deps") or []) + (d.get("files") or [])
+                             if "/./" in x or "/../" in x or x.startswith("./") or x.endswith("/.")
+                             or x.endswith("/") or "//" in x[1:])
+    return n
+
+
 # -------------------------------------------------------------------- run
 
 def run_harness(ck, binp, shards):
@@ -328,6 +380,7 @@ def run(ck):
                                              else "exec:%d" % min(len(o.get("exec") or []), 9))
         hist[k] = hist.get(k, 0) + 1
     ck.coverage["observed_histogram"] = hist
+    ck.coverage["names_not_in_resolved_form"] = spelling_stats(cases)
     picks = [c for c in cases if c["stream"].startswith("corpus")][:2] + \
             [c for c in cases if c["stream"] == "rand"][:2] + [c for c in cases if c["stream"] == "perm"][:1]
     for c in picks:
@@ -344,7 +397,7 @@ def run(ck):
         def evaluate(s):
             part = cases[s:s + shard]
             txt = ("From Coq Require Import List String.\n"
-                   "From Verif Require Import Caco.Load Caco.LoadCorr.\n"
+                   "From Verif Require Import Caco.Load Caco.LoadNames Caco.LoadCorr.\n"
                    "Import ListNotations.\nLocal Open Scope string_scope.\n"
                    "Definition cases : list ccase := [\n  "
                    + cases_to_coq(part) + "\n].\n"
